@@ -70,6 +70,7 @@ type errState struct {
 	vals map[ssa.Value]bool
 	mem  map[*ssa.Alloc]bool
 	done map[*ssa.BasicBlock]bool // single-iteration loops (range over a map under len(m)==1) whose one iteration was taken
+	bphi map[*ssa.Phi]ssa.Value   // boolean phis (a && b used as a value): the operand that flowed in on this path
 }
 
 func setKey(vals map[ssa.Value]bool, mem map[*ssa.Alloc]bool) string {
@@ -111,7 +112,16 @@ func (p *Prog) errPathSearch(fn *ssa.Function, call ssa.Instruction, errv ssa.Va
 		fr := stack[len(stack)-1]
 		stack = stack[:len(stack)-1]
 		st := fr.st
-		key := fmt.Sprintf("%d:%d:%s:%d", st.blk.Index, st.idx, setKey(st.vals, st.mem), len(st.done))
+		bk := ""
+		if len(st.bphi) > 0 {
+			var bs []string
+			for ph, v := range st.bphi {
+				bs = append(bs, ph.Name()+"="+v.Name())
+			}
+			sort.Strings(bs)
+			bk = strings.Join(bs, ",")
+		}
+		key := fmt.Sprintf("%d:%d:%s:%d:%s", st.blk.Index, st.idx, setKey(st.vals, st.mem), len(st.done), bk)
 		if visited[key] {
 			continue
 		}
@@ -201,7 +211,21 @@ func (p *Prog) errPathSearch(fn *ssa.Function, call ssa.Instruction, errv ssa.Va
 		// successor edges
 		for si, s := range st.blk.Succs {
 			if ifi, ok := term.(*ssa.If); ok {
-				if verdict := errBranch(ifi.Cond, vals, si == 0); verdict == "nil" || verdict == "eof" {
+				cond, taken := ifi.Cond, si == 0
+				// a boolean phi (the value of `a && b`): on this path it is the operand that flowed in
+				for d := 0; d < 4; d++ {
+					ng := normGuard(guard{cond, taken})
+					ph, isPhi := ng.Cond.(*ssa.Phi)
+					if !isPhi || st.bphi[ph] == nil {
+						break
+					}
+					cond, taken = st.bphi[ph], ng.Pol
+				}
+				if bv, isC := constBool(cond); isC {
+					if bv != taken {
+						continue // infeasible: the phi held the other constant on this path
+					}
+				} else if verdict := errBranch(cond, vals, taken); verdict == "nil" || verdict == "eof" {
 					continue // on this edge the error is nil, or it is io.EOF and was recognised as such
 				}
 			}
@@ -227,10 +251,17 @@ func (p *Prog) errPathSearch(fn *ssa.Function, call ssa.Instruction, errv ssa.Va
 					}
 				}
 			}
+			nb := map[*ssa.Phi]ssa.Value{}
+			for ph, v := range st.bphi {
+				nb[ph] = v
+			}
 			for _, in := range s.Instrs {
 				ph, ok := in.(*ssa.Phi)
 				if !ok {
 					break
+				}
+				if pi >= 0 && isBoolType(ph.Type()) {
+					nb[ph] = ph.Edges[pi]
 				}
 				if pi >= 0 && vals[ph.Edges[pi]] {
 					nv[ph] = true
@@ -253,7 +284,7 @@ func (p *Prog) errPathSearch(fn *ssa.Function, call ssa.Instruction, errv ssa.Va
 				continue // a second iteration is infeasible under len(m) == 1
 			}
 			np := append(append([]string{}, fr.path...), fmt.Sprintf("block %d -> %d (%s)", st.blk.Index, s.Index, p.Pos(firstPos(s))))
-			stack = append(stack, frame{errState{blk: s, idx: 0, vals: nv, mem: nm, done: nd}, np})
+			stack = append(stack, frame{errState{blk: s, idx: 0, vals: nv, mem: nm, done: nd, bphi: nb}, np})
 		}
 	}
 	return "", nil
